@@ -422,6 +422,10 @@ class RunMonitor:
             for ada, kind in zip(reversed(l["adapters"]), reversed(kinds)):
                 if kind is not None and (kind == "dfix" or kind.startswith("dpull")):
                     tr = spec_with_delay(ada, kind, tr)
+                elif kind == "dpush":
+                    # documented: min(t, newest publication); the newest publication is the source output's time
+                    newest = w["comps"][l["src"]].outputs[l["out"]].time
+                    tr = newest if bool(tr > newest) else tr
                 elif kind is None and isinstance(ada, ITimeDelayAdapter):
                     tr = ada.with_delay(tr)
             src = w["comps"][l["src"]]
